@@ -104,6 +104,19 @@ pub open spec fn stmt_kind_ok(s: synast::Stmt, r: Option<asg::Stmt>) -> bool {
         synast::Stmt::ExternStmt(_) => r == Some(asg::Stmt::NullStmt),
     }
 }
+/// C07: the symbol a declaration statement of the graph introduces in the scope it stands in (Err marks a redeclaration)
+pub open spec fn declared_symbol(s: asg::Stmt) -> Option<SymbolIdResult> {
+    match s {
+        asg::Stmt::DeclareClassical(d) => Some(d.name),
+        asg::Stmt::DeclareQuantum(d) => Some(d.name),
+        asg::Stmt::InputDeclaration(d) => Some(d.name),
+        asg::Stmt::OutputDeclaration(d) => Some(d.name),
+        asg::Stmt::Alias(d) => Some(d.name),
+        asg::Stmt::GateDefinition(d) => Some(d.name),
+        asg::Stmt::DefStmt(d) => Some(d.name),
+        _ => None,
+    }
+}
 /// C06: gate modifiers keep their kind and their order
 pub open spec fn mod_same(m: synast::Modifier, g: asg::GateModifier) -> bool {
     match m {
